@@ -496,3 +496,9 @@ func VerifHarness_C14_rev_clienthello_extension_strict() {
 	verifReach("checked")
 	verifAssert("C14.extstrict.trailingByteInExtensionRejected", !ok)
 }
+
+// (The stream stack has one more harness here, C14_rev_slice_is_outer: decoders must consume the whole slice
+// whatever the header's length bytes say. It has no datagram twin: the datagram decoders delimit the body by the
+// header's fragment-length field by design (dtlcpUnmarshalHeader), so bytes of the slice beyond that field are
+// ignored; readHandshake never hands over such a slice (it rebuilds the header after reassembly), which is the
+// framing precondition stated at the top of this file. Observation O-6 in DESIGN.md, not alarmed on.)
